@@ -13,9 +13,13 @@
                                WHOLE allocation trace, whatever the order in time of glue and object events was.
      C18_reachable_invariant : every state reachable through the interface satisfies  cinv = glue invariant /\ C20's Inv
                                of the object world /\ (table->data != NULL <-> the object exists) /\ glue allocator clean.
-     C18_memory_safe         : in every such state, a valid call that respects the documented preconditions (doc_pre) is
+     C18_memory_safe         : in every such state, a valid call that respects the documented preconditions (doc_pre: a
+                               per-dimension accessor / evaluation / grideval is not applied to an EMPTY table) is
                                not `Crashed`, no exception escapes, the process stays alive, the invariant is kept, and
                                the member(s) it forwards to are safe_to_call (C20's `safe`) and never UB.
+     C18_no_table_refused    : a NULL handle or a handle without a table (zero-initialised, failed read, freed) is refused
+                               by EVERY wrapper that uses the table, the value-returning ones included (repo fix F18_1):
+                               state unchanged, the documented value returned (no_table_value).
      C18_run_safe            : the same along whole sequences.
      C18_faithful            : one-member wrappers = cpp_step of the twin;
      C18_faithful_compound   : splinetable_init / splinetable_free / readsplinefitstable / readsplinefitstable_mem /
@@ -30,7 +34,8 @@ Open Scope string_scope.
 
 (* ---- obligations on the working tree (fail when a wrapper loses its try/catch, returns 0 from a catch block, stops
         checking a pointer it dereferences, forwards to another member or in another argument order, or when
-        ndsparse_destroy deletes through the base type again) ---- *)
+        ndsparse_destroy deletes through the base type again).  C18_tree_null_checked and C18_tree_table_checked are about
+        ALL 30 extern "C" functions: there is no exemption for the value-returning wrappers any more ---- *)
 Theorem C18_tree_glue_ok : glue_ok wrappers = true.
 Proof. exact tree_glue_ok. Qed.
 
@@ -98,8 +103,8 @@ Proof. exact balanced_glue. Qed.
 (* ================================================================================================================ *)
 (* ---- composition with C20's global invariant (C18_Compose.v) ---- *)
 
-(* obligation on the working tree: every wrapper that can report a failure tests table->data before its body uses it
-   (the value-returning accessors / evaluators cannot: their documented precondition is doc_pre) *)
+(* obligation on the working tree: every wrapper whose body uses table->data tests it first (all of them: the exemption of
+   the value-returning accessors / evaluators went with F18_1; see C18_refuted_accessors_crash for the old shape) *)
 Theorem C18_tree_table_checked : forallb (table_checked wrappers) all_shapes = true.
 Proof. vm_compute. reflexivity. Qed.
 
@@ -164,6 +169,23 @@ Theorem C18_null_refused : forall c F GF cs call p,
   /\ ret_of (g_check_ret (glue_of wrappers (fname (c_args call)))) <> Crashed.
 Proof. exact null_refused_tree. Qed.
 
+(* a NULL handle, or a handle whose table->data is NULL: every wrapper that uses the table refuses, whatever else is passed;
+   nothing is touched and the caller gets the value the header documents — 0 / NULL / NaN for the value-returning
+   wrappers (they behave as if the table had no dimensions), 1 / NULL for those with a failure code *)
+Theorem C18_no_table_refused : forall c F GF cs call,
+  dead cs = false -> needs_live (c_args call) = true ->
+  inb "table" (c_nulls call) = true \/ live cs (c_h call) = false ->
+  c_call wrappers c F GF cs call = (cs, no_table_value (c_args call))
+  /\ no_table_value (c_args call) <> Crashed /\ (forall why, no_table_value (c_args call) <> Escaped why).
+Proof. exact no_table_refused_tree. Qed.
+(* the same for any glue table with the obligation (what the check returns is then read off the table) *)
+Theorem C18_no_table_refused_glue : forall gt c F GF cs call,
+  dead cs = false -> table_checked gt (c_args call) = true -> needs_live (c_args call) = true ->
+  existsb (fun a => inb a (c_nulls call)) (g_pre_deref (glue_of gt (fname (c_args call)))) = false ->
+  inb "table" (c_nulls call) = false -> live cs (c_h call) = false ->
+  c_call gt c F GF cs call = (cs, ret_of (g_check_ret (glue_of gt (fname (c_args call))))).
+Proof. exact no_table_refused. Qed.
+
 Theorem C18_run_safe : forall kl gt F GF calls cs, glue_ok gt = true -> forallb (table_checked gt) all_shapes = true ->
   cinv kl cs -> dead cs = false ->
   valid_sequence gt cfg_fixed F GF cs calls = true -> Forall (wf_call kl) calls -> pre_sequence gt cfg_fixed F GF cs calls = true ->
@@ -210,6 +232,40 @@ Theorem C18_refuted_gradient_escapes : snd (run0 (orig_over wrappers) h_grad) = 
 Proof. vm_compute. reflexivity. Qed.
 Theorem C18_refuted_null_handle_crashes : snd (run0 (orig_over wrappers) h_null) = [RInt 1; Crashed].
 Proof. vm_compute. reflexivity. Qed.
+
+(* the value-returning wrappers as they were until 07dbb30 (no leading check; `unchecked_over` = that tree's glue, `orig_over`
+   = a37ac82's): on a handle that a failed readsplinefitstable left without a table, on a zero-initialised handle and on a
+   NULL handle EVERY one of the 16 crashes the process; both table obligations fail.  (Known finding
+   C18:accessors:null-handle-deref, repaired by F18_1.) *)
+Definition no_table_probes : list cargs := map AAcc all_accs ++ [ASearch true; AEval; ADeriv; AGrad].
+Definition after_failed_read gt (a : cargs) : list cres := snd (run0 gt [call 0 (ARead ex_missing); call 0 a]).
+Definition on_zeroed gt (a : cargs) : list cres := snd (run0 gt [call 0 a]).
+Definition on_null gt (a : cargs) : list cres := snd (run0 gt [{| c_h := 0; c_nulls := ["table"]; c_args := a |}]).
+Definition cres_eqb (a b : cres) : bool :=
+  match a, b with
+  | RInt n, RInt m => Nat.eqb n m | RPtr x, RPtr y => Bool.eqb x y | RVal, RVal | RVoid, RVoid | RNaN, RNaN | Crashed, Crashed => true
+  | _, _ => false
+  end.
+Fixpoint cres_list_eqb (a b : list cres) : bool :=
+  match a, b with [], [] => true | x :: a', y :: b' => cres_eqb x y && cres_list_eqb a' b' | _, _ => false end.
+Theorem C18_refuted_accessors_crash :
+  forallb (fun a => cres_list_eqb (after_failed_read (unchecked_over wrappers) a) [RInt 1; Crashed]) no_table_probes = true
+  /\ forallb (fun a => cres_list_eqb (on_zeroed (unchecked_over wrappers) a) [Crashed]) no_table_probes = true
+  /\ forallb (fun a => cres_list_eqb (on_null (unchecked_over wrappers) a) [Crashed]) no_table_probes = true
+  /\ forallb (fun a => cres_list_eqb (after_failed_read (orig_over wrappers) a) [RInt 1; Crashed]) no_table_probes = true
+  /\ forallb (null_checked (unchecked_over wrappers)) all_shapes = false
+  /\ forallb (table_checked (unchecked_over wrappers)) all_shapes = false
+  /\ valid_sequence (unchecked_over wrappers) cfg_fixed no_fault no_fault cstate0 [call 0 (ARead ex_missing); call 0 AEval] = true.
+Proof. vm_compute. repeat split; reflexivity. Qed.
+(* ... and on the working tree: the documented values, the process alive, the state untouched *)
+Example C18_fixed_accessors :
+  map (after_failed_read wrappers) no_table_probes =
+    map (fun r => [RInt 1; r]) [RInt 0; RInt 0; RInt 0; RPtr false; RNaN; RNaN; RNaN; RNaN; RInt 0; RInt 0; RInt 0; RPtr false; RInt 0; RNaN; RNaN; RNaN]
+  /\ map (on_zeroed wrappers) no_table_probes = map (fun a => [no_table_value a]) no_table_probes
+  /\ map (on_null wrappers) no_table_probes = map (fun a => [no_table_value a]) no_table_probes
+  /\ dead (fst (run0 wrappers (call 0 (ARead ex_missing) :: map (call 0) no_table_probes))) = false
+  /\ pre_sequence wrappers cfg_fixed no_fault no_fault cstate0 (call 0 (ARead ex_missing) :: map (call 0) no_table_probes) = true.
+Proof. vm_compute. repeat split; reflexivity. Qed.
 
 (* the same histories on the working tree; and the hypotheses of C18_balanced_glue are satisfiable on a history that
    mixes successes and failures over three handles *)
@@ -293,13 +349,15 @@ Theorem C18_wf_needed :
   valid_sequence wrappers cfg_fixed no_fault no_fault cstate0 h = true /\ all_released (fst (run0 wrappers h)) = true
   /\ lost (wm (cw (fst (run0 wrappers h)))) <> [] /\ balancedb (rev (trace (wm (cw (fst (run0 wrappers h)))))) = false.
 Proof. vm_compute. repeat split; discriminate. Qed.
-(* doc_pre: evaluation through a handle that a failed read left NULL, and grideval on an empty table, crash although the
-   sequence is valid (known finding C18:accessors:null-handle-deref; the C++ twin crashes identically) *)
+(* doc_pre: evaluation, a per-dimension accessor and grideval applied to an EMPTY table (splinetable_init and nothing else)
+   crash although the sequence is valid — inside the C++ member, the C++ twin crashes identically (C20/C17's domain).  A
+   handle WITHOUT a table is no longer a precondition: C18_no_table_refused *)
 Theorem C18_doc_pre_needed :
-  let h1 := [call 0 (ARead ex_missing); call 0 AEval] in
+  let h1 := [call 0 AInit; call 0 AEval] in
   let h2 := [call 0 AInit; call 0 (AGrideval 0 3)] in
   valid_sequence wrappers cfg_fixed no_fault no_fault cstate0 h1 = true /\ pre_sequence wrappers cfg_fixed no_fault no_fault cstate0 h1 = false
-  /\ snd (run0 wrappers h1) = [RInt 1; Crashed]
+  /\ snd (run0 wrappers h1) = [RInt 0; Crashed]
+  /\ snd (run0 wrappers [call 0 AInit; call 0 (AAcc AccOrder)]) = [RInt 0; Crashed]
   /\ valid_sequence wrappers cfg_fixed no_fault no_fault cstate0 h2 = true /\ pre_sequence wrappers cfg_fixed no_fault no_fault cstate0 h2 = false
   /\ snd (run0 wrappers h2) = [RInt 0; Crashed].
 Proof. vm_compute. repeat split; reflexivity. Qed.
@@ -331,6 +389,8 @@ Print Assumptions C18_balanced_tree.
 Print Assumptions C18_memory_safe.
 Print Assumptions C18_run_safe.
 Print Assumptions C18_null_refused.
+Print Assumptions C18_no_table_refused.
+Print Assumptions C18_no_table_refused_glue.
 Print Assumptions C18_faithful_compound.
 Print Assumptions C18_wf_needed.
 Print Assumptions C18_doc_pre_needed.
@@ -339,3 +399,4 @@ Print Assumptions C18_refuted_destroy_leaks.
 Print Assumptions C18_refuted_convolve_escapes.
 Print Assumptions C18_refuted_gradient_escapes.
 Print Assumptions C18_refuted_null_handle_crashes.
+Print Assumptions C18_refuted_accessors_crash.
